@@ -187,4 +187,6 @@ check_cache = REG.add(Contract(
                  "del:plugins": _noop_hook},
     loops={1: Loop(lambda S, a: []), 2: Loop(lambda S, a: []), 3: Loop(lambda S, a: []), 4: Loop(lambda S, a: [])},
     local_sorts={"loader": "V", "_chunk_number": "V", "_subrun_time_range": "V"},
+    # loops 1-3 (subrun loaders, dependency recursion) do not touch this invocation's ghost flags; loop 4 creates savers
+    loop_ghost={1: [], 2: [], 3: [], 4: ["saver_added"]},
 ))
